@@ -538,8 +538,10 @@ class C06(PropertyCheck):
                    "classes excluded from the oracle sweep exactly when the source has the defective shape: circuits with a gate on "
                    "more than two qubits (transpile without pre-decomposition), circuits with a rotation by exactly 0 (compile keeps "
                    "zero-duration instructions), circuits that need no pulse (load_circuit cannot store an empty pulse set)"]
-    rule = ("case = (topology, chain length, schedule mode, hardware parameter vectors, gate list with placements and angles); "
-            "distinct by canonical JSON; non-trivial = at least one pulse instruction is compiled or the load is refused")
+    rule = ("case = (topology, chain length, schedule mode, hardware parameter vectors, gate list with placements and angles), or a "
+            "history = sequence of 2-7 such loads on ONE processor instance (same circuit again, circuits alternately, through "
+            "run_state(qc=...), one compiler object for every load); distinct by canonical JSON; non-trivial = at least one pulse "
+            "instruction is compiled or the load is refused (history: at least two loads)")
 
     # ---------------------------------------------------------------------------------
     def regenerate(self, ctx):
